@@ -108,6 +108,7 @@ TCallEnd ==
      \/ cpc[M] = "wait" /\ Ev.out = "ctx" /\ TakeCtx(M)
      \/ cpc[M] = "wait" /\ Streaming(M) /\ Ev.out # "ctx" /\ StreamEarlyDone(M)
      \/ cpc[M] = "wait" /\ Kind[M] = "nsw" /\ Stutter
+     \/ cpc[M] = "wait" /\ Ev.out # "ctx" /\ Abandon(M)        \* quorum (or exhaustion) without this node's reply
 
 TDeleteRouter ==
   /\ Is("DeleteRouter") /\ Step /\ TUnch
@@ -118,15 +119,17 @@ TDeleteRouter ==
 (* Deliveries: Route is logged inside the router mutex by whoever delivers  *)
 (***************************************************************************)
 RouteOK == Ev.found = (M \in routers)
+IsErr == Ev.found => Ev.err        \* (the event of a delivery that finds no router does not know the error)
 TRoute ==
   /\ Is("Route") /\ Ev.why = "resp" /\ Step /\ TUnch /\ RouteOK
   /\ \/ rpc = "route" /\ rmsg = M /\ Route                             \* the receiver
-     \/ spc = "brokenreply" /\ cur = M /\ BrokenReply /\ Ev.err         \* the sender: stream is down
+     \/ spc = "brokenreply" /\ cur = M /\ BrokenReply /\ IsErr         \* the sender: stream is down
      \/ spc = "confirm" /\ cur = M /\ Confirm                           \* the sender: confirmation / send error
         /\ (Kind[M] = "sw" \/ sndErr)
-     \/ cpc[M] = "handoff" /\ closed /\ ClosedReply(M) /\ Ev.err        \* the caller itself
-     \/ cpc[M] = "handoff" /\ ctx[M] = "ended" /\ CtxReply(M) /\ Ev.err
-     \/ closed /\ sendQ # <<>> /\ Head(sendQ) = M /\ Drain              \* whoever drains the queue of a closed node
+     \/ cpc[M] = "handoff" /\ closed /\ ClosedReply(M) /\ IsErr        \* the caller itself
+     \/ cpc[M] = "handoff" /\ ctx[M] = "ended" /\ CtxReply(M) /\ IsErr
+     \/ closed /\ (\E i \in DOMAIN sendQ : sendQ[i] = M) /\ Drain        \* whoever drains the queue of a closed node
+        /\ \A i \in DOMAIN sendQ' : sendQ'[i] # M
 
 \* "stream is down" for every pending request: the CancelPending event is
 \* logged inside the router mutex, before the individual deliveries
@@ -174,7 +177,7 @@ TReconTimer == /\ Is("ReconTimer") /\ Step /\ TUnch
 TReconWoken == /\ Is("ReconWoken") /\ Step /\ TUnch
                /\ IF Ev.who > 0 THEN SSleepWoken ELSE SleepInterrupted /\ wake /\ rpc' = "r_lockwait"
 TReconParentDone == /\ Is("ReconParentDone") /\ Step /\ TUnch
-                    /\ IF Ev.who > 0 THEN SSleepDone /\ closed ELSE SleepInterrupted /\ closed /\ rpc' = "exiting"
+                    /\ IF Ev.who > 0 THEN SSleepDone /\ closed ELSE SleepInterrupted /\ closed /\ rpc' = "loopend"
 
 TBrokenReply == Is("BrokenReply") /\ Step /\ TUnch /\ Stutter /\ spc = "brokenreply" /\ cur = M
 TCtxSkip == Is("CtxSkip") /\ Step /\ TUnch /\ CtxCheck /\ cur = M /\ sndErr'
@@ -193,7 +196,10 @@ TSndMarker == /\ (Is("Confirm") \/ Is("ErrReply")) /\ Step /\ Stutter
                  ELSE Is("ErrReply") /\ Kind[M] = "sw" /\ lateErr = 0 /\ lateErr' = M
 TLateErrRoute == /\ Is("Route") /\ Ev.why = "resp" /\ Step /\ Stutter /\ lateErr = M /\ M \notin routers /\ ~Ev.found
                  /\ lateErr' = 0 /\ UNCHANGED <<handed, sentOn, stopping, srvUp, unrep, closing>>
-TDrainMarker == Is("Drain") /\ Step /\ TUnch /\ Stutter /\ closed
+\* (a request may be drained - by another goroutine - before its caller has logged the hand-off)
+TDrainMarker == /\ Is("Drain") /\ Step /\ closed /\ UNCHANGED <<sentOn, stopping, srvUp, unrep, closing, lateErr>>
+                /\ IF M \in handed THEN Stutter /\ UNCHANGED handed
+                   ELSE HandOffQueue(M) /\ handed' = handed \cup {M}
 TSenderExit == Is("SenderExit") /\ Step /\ TUnch /\ (IF spc = "exited" THEN Stutter ELSE SenderExit)
 
 (***************************************************************************)
@@ -243,7 +249,7 @@ THReply ==
               /\ VUnch /\ UNCHANGED <<alive, c2s, mutHeld, handlers, items, started>>
          ELSE Stutter
 
-TCtxEnd == Is("CtxEnd") /\ Step /\ TUnch /\ (IF ctx[M] = "live" /\ cpc[M] # "done" THEN CtxEnd(M) ELSE Stutter)
+TCtxEnd == Is("CtxEnd") /\ Step /\ TUnch /\ (IF ctx[M] = "live" /\ (cpc[M] # "done" \/ InTransit(M)) THEN CtxEnd(M) ELSE Stutter)
 \* the node's context is cancelled at some instant between the two events
 TNodeCancelBegin == /\ Is("NodeCancelBegin") /\ Step /\ Stutter /\ closing' = TRUE
                     /\ UNCHANGED <<handed, sentOn, stopping, srvUp, unrep, lateErr>>
@@ -266,10 +272,11 @@ SilentStep ==
      \/ CheckConnected
      \/ ReadBrokenForReconnect
      \/ BrokenCheck
+     \/ \E r \in Reqs : WatcherDecides(r)
      \/ CtxCheck /\ ~sndErr'                                   \* (the context has not ended: no event)
      \/ spc = "confirm" /\ Kind[cur] # "sw" /\ ~sndErr /\ Confirm   \* a successful two-way / no-send-waiting send
      \/ rpc = "r_lockwait" /\ "rcv" \notin lkWait /\ ~CanWLock("rcv") /\ RLockWait   \* the receiver starts to wait for the lock
-     \/ RcvNoticeClosed
+     \/ RcvLoopEnd
      \/ rmBlocked /\ Route                                    \* a blocked delivery completes
      \/ stopping /\ Crash
      \/ closing /\ Close
